@@ -432,6 +432,19 @@ func (root *Root) formArgs(
 			}
 		}
 	}
+	if fd != nil {
+		// The field was checked against the type of the first object it was
+		// resolved for. Another implementer of an interface or member of a
+		// union may declare fewer arguments.
+		for _, av := range field.Args {
+			if fd.getArg(av.Arg) == nil {
+				ea = append(ea, valError(av.line, av.col, "%s is not an argument to %s", av.Arg, field.Name))
+			}
+		}
+		if 0 < len(ea) {
+			return nil, ea
+		}
+	}
 	// Build the args by combining provided args and variable values as
 	// appropriate.
 	if 0 < len(field.Args) {
